@@ -193,6 +193,28 @@ def search(ctx):
                                   'atoms': [dict(pos=np.asarray(a.pos).tolist(), adp_type=a.adp_type, adp=(a.adp if not isinstance(a.adp, list) else list(map(float, a.adp))),
                                                  occ=a.occ, atomtype=a.atomtype, symmulti=a.symmulti) for a in atoms],
                                   'replay': 'StructureFactor sg=%s hkl=%r: %s' % (name, list(h), why)})
+    # large structures (more than 256 and more than 512 atoms; non-uniform occupancies, mixed displacement types): the sum runs over every atom whatever their number
+    for n_atoms, no in ((257, 2), (300, 4), (520, 1), (64, 19), (129, 14)):
+        s = sg.sg(sgno=no)
+        cell = HR.conforming_cell(rng, s.crystal_system, s.cell_choice)
+        atoms = make_structure(rng, s, cell, n_atoms, 0.0)
+        for a in atoms:
+            a.occ = round(rng.uniform(0.05, 1.0), 3)
+        disper, mode = random_disper(rng, atoms)
+        tot = sum(a.occ * a.symmulti * (SF.formfac(a.atomtype, 0.0) + 4.5) for a in atoms)
+        tol = 1e-6 * max(1.0, tot) * 12
+        for h in ([0, 0, 0], [1, 0, 0], [rng.randint(-4, 4) for _ in range(3)]):
+            ctx.count(('large', n_atoms, tuple(h)), hist='search:large structure (%d atoms)' % n_atoms)
+            try:
+                F = sf(h, cell, s.name, atoms, disper)
+                Fx = complex(SF.explicit_sf(h, cell, s, atoms, disper))
+                why = None if abs(F - Fx) <= tol else 'F = %r differs from the explicit unit-cell sum %r for a structure of %d atoms (|diff| %.3g, scale %.3g)' % (F, Fx, n_atoms, abs(F - Fx), tot)
+            except Exception as e:
+                why = 'raised %s: %s' % (type(e).__name__, e)
+            if why and ('large', n_atoms) not in seen:
+                seen.add(('large', n_atoms))
+                fails.append({'sgno': no, 'sgname': s.name, 'cell': cell, 'hkl': list(h), 'class': 'large', 'what': why, 'natoms': n_atoms,
+                              'replay': 'StructureFactor sg=%s hkl=%r with %d atoms: %s' % (s.name, list(h), n_atoms, why)})
     return fails
 
 
